@@ -31,6 +31,9 @@ pub struct S03 {
     pub rbackend: RdBackend,
     pub offset: Vec<(u64, usize)>,
     pub elems: Vec<Elem>,
+    /// scale scenario (zero run / unary part / copy of 2^32 bits over the sparse stubs)
+    #[serde(default)]
+    pub giant: Option<crate::giant::Giant>,
 }
 
 pub struct C03;
@@ -52,6 +55,19 @@ impl Family for C03 {
         let e = if index % 2 == 0 { En::BE } else { En::LE };
         let wword = Wd::ALL[((index / 2) % 5) as usize];
         let rkind = RdKind::ALL[((index / 10) % 5) as usize];
+        if crate::giant::is_giant_index(index) {
+            let g = crate::giant::gen_giant(rng);
+            return S03 {
+                e,
+                wword: g.wword,
+                wbackend: WrBackend::SparseRec,
+                rkind: g.rkind,
+                rbackend: RdBackend::MemStrict,
+                offset: Vec::new(),
+                elems: Vec::new(),
+                giant: Some(g),
+            };
+        }
         let wb = rkind.word_bits();
         let off_bits = rng.usize_range(0, 2 * wb + 1);
         let mut offset = Vec::new();
@@ -116,10 +132,14 @@ impl Family for C03 {
             rbackend,
             offset,
             elems,
+            giant: None,
         }
     }
 
     fn exec(s: &S03, ctx: &mut Ctx) {
+        if let Some(g) = &s.giant {
+            return crate::giant::giant_roundtrip(s.e, g, ctx);
+        }
         let base = vec![
             format!("e={:?}", s.e),
             format!("wword={:?}", s.wword),
@@ -194,6 +214,12 @@ impl Family for C03 {
 
     fn shrink(s: &S03) -> Vec<S03> {
         let mut out = Vec::new();
+        if let Some(g) = &s.giant {
+            for g2 in crate::giant::shrink_giant(g) {
+                out.push(S03 { giant: Some(g2), ..s.clone() });
+            }
+            return out;
+        }
         for elems in shrink_list(&s.elems) {
             out.push(S03 { elems, ..s.clone() });
         }
